@@ -15,7 +15,7 @@ PROPERTY = "C16"
 LEVEL = "exploration"
 SHARDS = {"quick": 4, "thorough": 16}
 REQUIRED = ["roundtrip", "ascii", "expires-bracket", "max-age", "delete-expired", "timezones"]
-RULE = ("Names over the HTTP token alphabet; values: every code point 0-255 alone / leading / trailing / doubled / inside a carrier (exhaustive), all pairs "
+RULE = ("Names over the HTTP token alphabet; values: every code point 0-255 alone / leading / trailing / doubled / inside a carrier (exhaustive), every string of length <=5 over {backslash, quote, 0, 1, 7, 8}, all pairs "
         "from {\", \\, ;, ',', =, space, TAB, CR, LF, NUL, DEL, 0x80, 0xFF}, random Latin-1 strings <=64; 1-5 cookies per Cookie header in random "
         "order with random OWS; expires in {0,1,59,3600,400 days,-3600}, max_age in {-1,0,1,10^9}; process time zones UTC, Asia/Shanghai, "
         "America/New_York, Europe/Berlin, Australia/Lord_Howe, Pacific/Kiritimati, Etc/GMT+12 (tzset in-process). Non-trivial = value that is not a "
@@ -221,8 +221,21 @@ def run(ctx):
                 for form in (a + b, "x" + a + b + "y", a + "x" + b):
                     roundtrip(ctx, rng, [("pair", form)])
                     ctx.case_enum(True)
+        # escape-shaped values: every string of length <=5 over {backslash, quote, 0, 1, 7, 8} (octal look-alikes such as \\101, \\089)
+        import itertools
+        for n in range(1, 6):
+            for combo in itertools.product('\\"0178', repeat=n):
+                idx += 1
+                if not ctx.mine(idx):
+                    continue
+                v = "".join(combo)
+                if "\\" not in v and '"' not in v:
+                    continue
+                roundtrip(ctx, rng, [("esc", v)] if n < 5 else [("esc", "C:" + v + "x")])
+                ctx.case_enum(True)
         ctx.exhaustive = True
-        ctx.extra["exhaustive_bound"] = "all 256 code points x 5 positions; all ordered pairs of 13 special characters x 3 positions"
+        ctx.extra["exhaustive_bound"] = ("all 256 code points x 5 positions; all ordered pairs of 13 special characters x 3 positions; all strings of length <=5 over "
+                                         "{backslash, quote, 0, 1, 7, 8} containing a backslash or quote")
         ctx.sample("single-code-point", {"cookies": [("k", "\xe9x")]})
         # ---------- random multi-cookie headers
         for i in range(ctx.scale(30_000, 400_000)):
